@@ -11,7 +11,7 @@
 //!   integers: decimal      bool: t | f      (): u      Option: N | S <v>
 //!   Rc / Arc / Box / Reverse / Dual / OrdLattice / Product: the inner value
 //!   tuples and arrays: the components in order
-//!   Set: <n> <x1> .. <xn> (ascending on output)      BoundedSet: T | B <n> <x1> .. <xn>
+//!   Set: <n> <x1> .. <xn> (in the set's iteration order on output)      BoundedSet: T | B <n> <x1> .. <xn>
 //!   ConstPropagation: bot | top | c <v>
 use std::cmp::{Ordering, Reverse};
 use std::collections::BTreeSet;
@@ -132,12 +132,12 @@ impl<T: Val, const N: usize> Val for [T; N] {
    }
 }
 
-impl Val for Set<i32> {
+impl<T: Val + Ord + std::hash::Hash + Eq> Val for Set<T> {
    fn parse(t: &mut Toks) -> Self {
       let n: usize = t.next().parse().unwrap();
       let mut s = BTreeSet::new();
       for _ in 0..n {
-         s.insert(i32::parse(t));
+         s.insert(T::parse(t));
       }
       assert_eq!(s.len(), n, "duplicate set element in the case line");
       Set(s)
@@ -413,6 +413,11 @@ table! {
    "bset1" => BoundedSet<1, i32>, noord, b;
    "bset2" => BoundedSet<2, i32>, noord, b;
    "bset3" => BoundedSet<3, i32>, noord, b;
+   "set_tup" => Set<(i32, bool)>, noord, nb;
+   "set_opt" => Set<Option<i32>>, noord, nb;
+   "set_rev" => Set<Reverse<i32>>, noord, nb;
+   "set_dual_tup" => Set<(Dual<i32>, bool)>, noord, nb;
+   "prod_set_tup" => Product<(Set<(bool, bool)>, bool)>, noord, nb;
    "cp_i32" => ConstPropagation<i32>, noord, b;
    "cp_bool" => ConstPropagation<bool>, noord, b;
    "cp_set" => ConstPropagation<Set<i32>>, noord, b;
